@@ -908,6 +908,121 @@ def oracle_scale(lines, anns, impl):
     return None
 
 
+# ----------------------------------------------------------------------------- real sockets, threads
+def ws_scenarios(pw):
+    """(name, hookvo, wait, items, verdict) for harness/c06_wsthread.c; items: ('F', bytes) one
+    WebSocket frame, ('A', kind, bytes) auth response + bytes in the SAME frame.
+    verdict: 'refused' (server must close, NO callback), 'silent' (no callback), or the exact list
+    of callback lines expected (controls: the probe really delivers input)."""
+    key, ptr, cut = m_key(1, 0x61)[0], m_ptr(1, 3, 4)[0], m_cut(b"abc")[0]
+    kcb, pcb, ccb = "kbd c1 1 97", "ptr c1 1 3 4", "cut c1 3 %016x" % fnv(b"abc")
+    v8, v3 = VERSIONS[8], VERSIONS[3]
+    out = []
+    if pw:
+        pre = [("F", v8), ("F", b"\x02")]
+        out += [
+            ("bad-auth+key", 0, "eof", pre + [("A", "bad", key)], "refused"),
+            ("bad-auth+ptr", 0, "eof", pre + [("A", "bad", ptr)], "refused"),
+            ("bad-auth+cut", 0, "eof", pre + [("A", "bad", cut)], "refused"),
+            ("bad-auth+init+key+ptr+cut", 0, "eof", pre + [("A", "bad", b"\x01" + key + ptr + cut)], "refused"),
+            ("bad-auth33+key", 0, "eof", [("F", v3), ("A", "bad", key)], "refused"),
+            ("bad-auth-then-key", 0, "eof", pre + [("A", "bad", b""), ("F", key)], "refused"),
+            ("full+init+key+ptr+cut", 0, "cb3", pre + [("A", "full", b"\x01" + key + ptr + cut)], [kcb, pcb, ccb]),
+            ("view+init+key+ptr+cut", 0, "quiet", pre + [("A", "view", b"\x01" + key + ptr + cut)], "silent"),
+            ("hookvo+full+init+key", 1, "quiet", pre + [("A", "full", b"\x01" + key + ptr)], "silent"),
+            ("full,key,unknown+key", 0, "eof", pre + [("A", "full", b"\x01"), ("F", key), ("F", b"\xee" + key + ptr)], [kcb]),
+            ("full,toobig-cut+key", 0, "eof", pre + [("A", "full", b"\x01" + bytes([6, 0, 0, 0]) + be32(LIMIT + 1) + key + cut)], "refused"),
+        ]
+    else:
+        pre = [("F", v8)]
+        out += [
+            ("badsec+key", 0, "eof", pre + [("F", b"\x07" + key + ptr)], "refused"),
+            ("key-as-version", 0, "eof", [("F", key + key)], "refused"),
+            ("none+init+key+ptr+cut", 0, "cb3", pre + [("F", b"\x01\x01" + key + ptr + cut)], [kcb, pcb, ccb]),
+            ("hookvo,none+init+key+ptr+cut", 1, "quiet", pre + [("F", b"\x01\x01" + key + ptr + cut)], "silent"),
+            ("unknown+key", 0, "eof", pre + [("F", b"\x01\x01"), ("F", b"\xfe" + key + ptr + cut)], "refused"),
+            ("fixcolourmap+key", 0, "eof", pre + [("F", b"\x01\x01" + bytes([1, 0, 0, 0, 0, 0]) + key)], "refused"),
+            ("overlong-chat+key", 0, "eof", pre + [("F", b"\x01\x01" + bytes([11, 0, 0, 0]) + be32(4117) + key + ptr)], "refused"),
+            ("scale0+ptr", 0, "eof", pre + [("F", b"\x01\x01" + bytes([8, 0, 0, 0]) + ptr + key)], "refused"),
+            ("key,filetransfer+key", 0, "eof", pre + [("F", b"\x01\x01" + key), ("F", bytes([7] + [0] * 11) + key)], [kcb]),
+        ]
+    return out
+
+
+def run_wsthread(ctx, d):
+    """gating on real sockets: WebSocket (binary and base64) x threaded / single-threaded event loop.
+    After the server has refused or closed a connection, nothing it still holds of that connection's
+    bytes (the rest of the same WebSocket frame!) may reach a callback."""
+    fails, n = [], 0
+    exe = ctx.harness("c06_wsthread")
+    jobs = []
+    for pw in (0, 1):
+        scs = ws_scenarios(pw)
+        lines, meta = [], []
+        for proto in ("bin", "b64"):
+            for (name, hook, wait, items, verdict) in scs:
+                toks = []
+                model = ["screen 64 48 %d 0 0" % pw, "hookvo %d" % hook, "conn 1 ws"]
+                for it in items:
+                    if it[0] == "F":
+                        toks.append("F:" + hx(it[1]))
+                        model.append("send 1 " + hx(it[1]))
+                    else:
+                        toks.append("A:%s:%s" % (it[1], hx(it[2])))
+                        if it[1] == "bad":
+                            model.append("send 1 " + hx(b"\x55" * 16 + it[2]))
+                        else:
+                            model.append("auth 1 %s%s" % (it[1], (" extra=" + hx(it[2])) if it[2] else ""))
+                lines.append("scn %s %s %d %s %s" % (name, proto, hook, wait, " ".join(toks)))
+                meta.append((name, proto, verdict, "\n".join(model) + "\n"))
+        for mode in ("thr", "st"):
+            jobs.append((pw, mode, lines, meta))
+
+    def one(job):
+        pw, mode, lines, meta = job
+        return ctx.run_lines(exe, "\n".join(lines) + "\n", timeout=900, args=[mode, str(pw)])
+
+    for (pw, mode, lines, meta), (rc, out, err) in zip(jobs, common.pmap(one, jobs, workers=2)):
+        what = "gating on real sockets (WebSocket, %s loop, %s screen)" % (
+            "threaded" if mode == "thr" else "single-threaded", "password" if pw else "open")
+        if rc != 0:
+            fails.append({"kind": "crash", "what": what + ": c06_wsthread exit %d" % rc, "script": lines,
+                          "impl": out[-20:], "detail": err})
+            continue
+        bl, dangling = blocks(out)
+        if dangling or len(bl) != len(lines):
+            fails.append({"kind": "crash", "what": what + ": %d scenario results for %d scenarios" % (len(bl), len(lines)),
+                          "script": lines, "impl": out[-20:], "detail": err})
+            continue
+        for line, (name, proto, verdict, mscript), (cbs, _closed, fin) in zip(lines, meta, bl):
+            n += 1
+            msg = None
+            if not fin.startswith("= " + name + " eof="):
+                msg = "scenario did not run: %r" % fin
+            elif verdict == "refused":
+                if cbs:
+                    msg = "callback(s) %r from a connection the server refused / closed" % cbs
+                elif not fin.endswith("eof=1"):
+                    msg = "the server did not close the connection"
+            elif verdict == "silent":
+                if cbs:
+                    msg = "callback(s) %r from a view-only client" % cbs
+            elif cbs != verdict:
+                msg = "expected exactly %r, got %r" % (verdict, cbs)
+            if msg:
+                fails.append({"kind": "oracle", "what": what, "detail": "%s (%s): %s" % (name, proto, msg),
+                              "script": ["# harness/c06_wsthread.c %s %d" % (mode, pw), line], "impl": cbs + [fin],
+                              "family": "wsthread"})
+                continue
+            if ctx.driver_ok:      # the model predicts the same callbacks from the equivalent script
+                rc2, mo, _ = ctx.run_lines(d, mscript)
+                mcb = [l for l in mo if l.startswith(CB)]
+                if rc2 != 0 or mcb != cbs:
+                    fails.append({"kind": "exact", "what": what + " vs model", "script": mscript.splitlines(),
+                                  "impl": cbs, "model": mcb, "family": "wsthread"})
+    return fails, n
+
+
 # ----------------------------------------------------------------------------- run
 def classify(sc, impl, dist, seen):
     dist["family"][sc.family] = dist["family"].get(sc.family, 0) + 1
@@ -987,6 +1102,10 @@ def run(ctx):
             scripts.append(gen_scale(rng, pairs[i:i + 6]))
 
     fails, samples, seen = [], [], set()
+    ws_evals = 0
+    if not ctx.replay:
+        wf, ws_evals = run_wsthread(ctx, d)
+        fails.extend(wf)
     dist = {"family": {}, "msgs": {}, "cuts": {}, "malformed_or_handshake_sends": 0, "callbacks": 0, "closed": 0}
 
     # A hung or blocked server is a counterexample, reported in bounded time: the harness has its own
@@ -1005,7 +1124,8 @@ def run(ctx):
         return r
 
     results = common.pmap(one, scripts)
-    evals = 0
+    evals = ws_evals
+    dist["wsthread_scenarios"] = ws_evals
     for sc, res in zip(scripts, results):
         if res is None:
             continue                # skipped after a crash/hang elsewhere
